@@ -504,6 +504,42 @@ def run_C20_asyncio(res, tier, seed, t_end):
 
 
 # ----------------------------------------------------------------------------- C14 (client level)
+def run_cross_thread(res, prop):
+    """an asyncio client waits in a blocking pop on an otherwise idle loop (own thread); a SYNC client of the same server pushes from another thread:
+    the waiting client is served at once, not when its loop happens to wake up"""
+    import threading
+    real_time()
+    for blk in ('blpop', 'brpoplpush'):
+        srv = fakeredis.FakeServer()
+        box = {}
+
+        def consumer():
+            lp = asyncio.new_event_loop()
+            try:
+                async def go():
+                    r = far.FakeRedis(server=srv)
+                    t0 = time.time()
+                    box['got'] = await (r.blpop('xq', 4) if blk == 'blpop' else r.brpoplpush('xq', 'xd', 4))
+                    box['dt'] = time.time() - t0
+                lp.run_until_complete(go())
+            except Exception as e:      # noqa
+                box['got'] = repr(e)
+            finally:
+                lp.close()
+        th = threading.Thread(target=consumer, daemon=True)
+        th.start()
+        time.sleep(0.3)
+        fakeredis.FakeStrictRedis(server=srv).rpush('xq', 'x')
+        th.join(10)
+        got, dt = box.get('got'), box.get('dt', 99.0)
+        res.evaluations += 1
+        res.cells.add(('cross-thread', blk))
+        want = (b'xq', b'x') if blk == 'blpop' else b'x'
+        if got != want or dt > 2.0:
+            res.add(finding(prop, 'served_as_soon_as_pushed(sync producer thread)', 'asyncio %s xq 4 with a push from a sync client on another thread after 0.3 s returned %r after %.2f s' % (blk.upper(), got, dt)))
+            return
+
+
 def sorted_page(page):
     """(cursor, members) of a set scan with the members in a canonical order"""
     try:
@@ -632,35 +668,8 @@ def run_C14(res, tier, seed, t_end):
     if got_s != [b'm1', b'm2', b'm3', b'm4', b'm5'] or none_s is not None or waited_s < 0.05:
         res.add(finding('C14', 'sync_messages_in_order', 'a polling sync subscriber received %r, then %r after %.3fs of a 0.05s time-out' % (got_s, none_s, waited_s)))
         return
-    def cross_thread(srv):
-        # an asyncio client waits in a blocking pop on an otherwise idle loop (own thread); a SYNC client of the same server pushes from another thread:
-        # the waiting client is served at once, not when its loop happens to wake up
-        import threading
-        box = {}
-
-        def consumer():
-            lp = asyncio.new_event_loop()
-            try:
-                async def go():
-                    r = far.FakeRedis(server=srv)
-                    t0 = time.time()
-                    box['got'] = await r.blpop('xq', 4)
-                    box['dt'] = time.time() - t0
-                lp.run_until_complete(go())
-            except Exception as e:      # noqa
-                box['got'] = repr(e)
-            finally:
-                lp.close()
-        th = threading.Thread(target=consumer, daemon=True)
-        th.start()
-        time.sleep(0.3)
-        fakeredis.FakeStrictRedis(server=srv).rpush('xq', 'x')
-        th.join(10)
-        return box.get('got'), box.get('dt', 99.0)
-    res.evaluations += 1
-    got_x, dt_x = cross_thread(fakeredis.FakeServer())
-    if got_x != (b'xq', b'x') or dt_x > 2.0:
-        res.add(finding('C14', 'served_as_soon_as_pushed(sync producer thread)', 'asyncio BLPOP xq 4 with a push from a sync client on another thread after 0.3 s returned %r after %.2f s' % (got_x, dt_x)))
+    run_cross_thread(res, 'C14')
+    if res.findings:
         return
     loop = asyncio.new_event_loop()
     try:
